@@ -1,6 +1,7 @@
 import A2Verif.Model.Hex
 import A2Verif.Model.Dasm
 import A2Verif.Model.Asm
+import A2Verif.Model.DasmLabel
 /-!
 driver family `c15`: answers for the harness family `c15`.
 
@@ -9,12 +10,18 @@ driver family `c15`: answers for the harness family `c15`.
   c15 rt    <proc> <mx> <brk> <org-hex> <bytes-hex>   per unit: bytes the assembler model emits for it (hex), or `E`
                                                       (refused), or `E:<hex>` for a refused `LUP` group with its Merlin reading
 
+  c15 ldasm <lab> <key> <proc> <mx> <brk> <org-hex> <bytes-hex>   labelled listing (`lab` ∈ none some all; `key` ∈ cur exact
+                                                      masked = look-up key of the substitution guard, `cur` = the one the
+                                                      translator found in the source): `label|text` per line, `;` separated
+  c15 lasm <lab> <key> <ver> <proc> <mx> <brk> <org-hex> <bytes-hex>   bytes the assembler model emits for the whole labelled
+                                                      listing (`ver` ∈ m8 m16 m16+ m32), or `E`
+
 `proc` ∈ 6502 65c02 65802 65816, `mx` two binary digits, `brk` 0/1.  The rendering below is the text layer
 of `format_lines` reduced to `MNEMONIC+suffix OPERAND` (single blank), which is how the harness
 canonicalises the real output.
 -/
 namespace A2Verif.Drv.C15
-open A2Verif.Gen.Opcodes A2Verif.Dasm A2Verif.Asm
+open A2Verif.Gen.Opcodes A2Verif.Gen.DasmLabels A2Verif.Dasm A2Verif.Asm
 
 def parseProc : String → Option Proc
   | "6502" => some .p6502
@@ -68,6 +75,36 @@ def renderLine : Line → List String
     ["DCI " ++ strOf ([d] ++ s ++ [d])]
   | .dfb _ v => ["DFB $" ++ hexN v 1]
 
+/-- a line of the labelled listing: column 1 (`_HEX` or empty) `|` the text; an operand that `format_lines`
+replaces by a label is printed as `_` + `pc_bytes`-byte hex (`addr_pattern.replace` hits the number, which is the
+first run of hex digits of every snippet) -/
+def renderLabelled (k : LabelKey) (labels : List Nat) (pcb : Nat) (l : Line) : List String :=
+  let col1 := if hasLineLabel labels l then "_" ++ hexN l.addr pcb else ""
+  let body : List String :=
+    match labelSubst k labels pcb l, l with
+    | some _, .instr _ m md wide sfx pfx (.rel d) =>
+      let name := strOf (mnemName m) ++ (match sfx with | .none => "" | .colon => ":" | .long => "L")
+      let n := if md == .rell then 2 else 1
+      let _ := wide; let _ := pfx
+      [name ++ " " ++ fillSnippet (snippet md) n ("_" ++ hexN d pcb)]
+    | some _, .instr _ m md wide sfx pfx (.val v n) =>
+      let name := strOf (mnemName m) ++ (match sfx with | .none => "" | .colon => ":" | .long => "L")
+      let snip := if wide then [35, 50] else snippet md
+      [name ++ " " ++ (if pfx then ">" else "") ++ fillSnippet snip n ("_" ++ hexN v pcb)]
+    | _, _ => renderLine l
+  match body with
+  | [] => []
+  | first :: more => (col1 ++ "|" ++ first) :: more.map (fun x => "|" ++ x)
+
+def parseLab : String → Option Labeling
+  | "none" => some .none | "some" => some .some | "all" => some .all | _ => none
+
+def parseKey : String → Option LabelKey
+  | "cur" => some labelKey | "exact" => some .exact | "masked" => some .masked | _ => none
+
+def parseVer : String → Option Ver
+  | "m8" => some .m8 | "m16" => some .m16 | "m16+" => some .m16p | "m32" => some .m32 | _ => none
+
 def primaryVer : Proc → Ver
   | .p65816 => .m16
   | _ => .m8
@@ -97,6 +134,31 @@ def handle (toks : List String) : String :=
         else "bad-request"
       | _, _, _ => "bad-request"
     | _, _, _, _, _ => "bad-request"
+  | [op, lab, key, p, mx, brk, org, hex] =>
+    match parseLab lab, parseKey key, parseProc p, mx.toList, brk.toList, parseHexNat org, A2Verif.Hex.ofHex hex with
+    | some lab, some k, some proc, [mc, xc], [bc], some o, some bytes =>
+      match parseBit mc, parseBit xc, parseBit bc with
+      | some m8, some x8, some b =>
+        if op == "ldasm" then
+          let lines := dasm Quirks.fixed ⟨proc, m8, x8, b⟩ o bytes
+          let labels := labelSet lab lines
+          join ";" (lines.flatMap (renderLabelled k labels (pcBytes lines)))
+        else "bad-request"
+      | _, _, _ => "bad-request"
+    | _, _, _, _, _, _, _ => "bad-request"
+  | [op, lab, key, ver, p, mx, brk, org, hex] =>
+    match parseLab lab, parseKey key, parseVer ver, parseProc p, mx.toList, brk.toList, parseHexNat org, A2Verif.Hex.ofHex hex with
+    | some lab, some k, some ver, some proc, [mc, xc], [bc], some o, some bytes =>
+      match parseBit mc, parseBit xc, parseBit bc with
+      | some m8, some x8, some b =>
+        if op == "lasm" then
+          let lines := dasm Quirks.fixed ⟨proc, m8, x8, b⟩ o bytes
+          match asmAll Quirks.fixed ⟨proc, ver, m8, x8⟩ o (labelled k lab lines) with
+          | .ok out => if out.isEmpty then "-" else A2Verif.Hex.toHex out
+          | .error _ => "E"
+        else "bad-request"
+      | _, _, _ => "bad-request"
+    | _, _, _, _, _, _, _, _ => "bad-request"
   | _ => "bad-request"
 
 end A2Verif.Drv.C15
